@@ -337,7 +337,7 @@ Section Proofs.
     destruct (total mod 16 =? 0) eqn:Hm; cbn [negb].
     - apply N.eqb_eq in Hm. exists 0%nat, s, false.
       cbn [firstn skipn xor_list N.of_nat]. rewrite N.sub_0_r, N.add_0_r.
-      splits; try assumption; try lia; try (intros; discriminate).
+      splits; try reflexivity; try assumption; try lia; try (intros; discriminate).
     - apply N.eqb_neq in Hm. specialize (Hks Hm).
       assert (Hnz : total <> 0) by (intros ->; apply Hm; reflexivity).
       specialize (Hpos Hnz).
@@ -403,7 +403,7 @@ Section Proofs.
   Proof.
     induction fuel as [|fuel IH]; intros total s inp Hinv Hm Hbound Hfuel; unfold mid_spec.
     - destruct inp; [|cbn in Hfuel; lia]. exists 0%nat, s. cbn.
-      rewrite N.add_0_r. splits; try assumption; lia.
+      rewrite N.add_0_r. splits; try reflexivity; try assumption; lia.
     - cbn [whole].
       destruct (16 <=? N.of_nat (length inp)) eqn:Hge.
       + apply N.leb_le in Hge.
@@ -423,11 +423,11 @@ Section Proofs.
         * rewrite firstn_plus, skipn_plus, ks_range_app.
           rewrite xor_list_app by (rewrite firstn_length, ks_range_length; lia).
           change (N.of_nat 16) with 16.
-          do 3 f_equal. rewrite skipn_length. lia.
+          do 2 f_equal. rewrite skipn_length. lia.
         * replace (total + N.of_nat (16 + k)) with (total + 16 + N.of_nat k) by lia.
-          splits; try assumption; lia.
+          splits; try reflexivity; try assumption; lia.
       + apply N.leb_gt in Hge. exists 0%nat, s. cbn [firstn skipn xor_list N.of_nat].
-        rewrite N.sub_0_r, N.add_0_r. splits; try assumption; lia.
+        rewrite N.sub_0_r, N.add_0_r. splits; try reflexivity; try assumption; lia.
   Qed.
 
   (* ---------------------------------------------------------------- post_wholeblock *)
@@ -492,3 +492,254 @@ Section Proofs.
       + replace (total + N.of_nat (length inp)) with (total + N.of_nat k1 + N.of_nat k2 + N.of_nat (length rest2)) by lia.
         exact Hinv3.
   Qed.
+
+  (* ---------------------------------------------------------------- the portable path *)
+  Lemma stream_is_stream_with s inp : stream E s inp = stream_with (whole E (length inp)) s inp.
+  Proof. reflexivity. Qed.
+
+  Theorem stream_spec total s inp :
+    ctr_inv total s -> total + N.of_nat (length inp) < two64 ->
+    exists s', stream E s inp = Ok (s', xor_list inp (ks_range total (length inp))) /\
+               ctr_inv (total + N.of_nat (length inp)) s'.
+  Proof.
+    intros Hinv Hbound. rewrite stream_is_stream_with.
+    apply stream_with_spec; [|exact Hinv | exact Hbound].
+    intros t s' inp' Hi Hm Hb Hl. apply whole_spec; try assumption. lia.
+  Qed.
+
+  (* ---------------------------------------------------------------- the AES-NI bulk path *)
+  Lemma bulk_block p c :
+    (8 <= length p)%nat -> firstn 8 p = be64 nonce ->
+    E (mm_unpacklo_epi64 (load_si64 p) (load_si64 (be64 c))) = ks_range (16 * c) 16.
+  Proof.
+    intros Hl Hp. rewrite <- keystream_as_range. unfold keystream, mm_unpacklo_epi64, load_si64.
+    rewrite (firstn_app_exact (firstn 8 p)) by (rewrite firstn_length; lia).
+    rewrite (firstn_app_exact (firstn 8 (be64 c))) by reflexivity.
+    change (firstn 8 (be64 c)) with (be64 c).
+    rewrite Hp. reflexivity.
+  Qed.
+
+  Lemma bulk_spec p : (8 <= length p)%nat -> firstn 8 p = be64 nonce ->
+    forall n c inp,
+      c + N.of_nat n + 1 < two64 -> (16 * S n <= length inp)%nat ->
+      bulk E n (load_si64 p) c inp =
+        (xor_list (firstn (16 * S n) inp) (ks_range (16 * c) (16 * S n)),
+         skipn (16 * S n) inp, c + N.of_nat n + 1, be64 (c + N.of_nat n)).
+  Proof.
+    intros Hl Hp. induction n as [|n IH]; intros c inp Hc Hinp.
+    - cbn [bulk]. rewrite bulk_block by assumption.
+      rewrite (N.mod_small _ two64) by lia.
+      change (16 * 1)%nat with 16%nat. change (N.of_nat 0) with 0. rewrite !N.add_0_r. reflexivity.
+    - cbn [bulk]. rewrite bulk_block by assumption.
+      rewrite (N.mod_small _ two64) by lia.
+      rewrite IH by (try rewrite skipn_length; lia).
+      replace (16 * S (S n))%nat with (16 + 16 * S n)%nat by lia.
+      rewrite firstn_plus, skipn_plus, ks_range_app.
+      rewrite xor_list_app by (rewrite firstn_length, ks_range_length; lia).
+      change (N.of_nat 16) with 16.
+      replace (16 * (c + 1)) with (16 * c + 16) by lia.
+      replace (c + 1 + N.of_nat n) with (c + N.of_nat (S n)) by lia.
+      reflexivity.
+  Qed.
+
+  Definition mid_aesni (s : st) (inp : list N) (bl : N) : res (st * list N * list N * N) :=
+    if 16 <=? bl then wholeblocks_aesni E s inp bl else Ok (s, [], inp, bl).
+
+  Lemma stream_aesni_is_stream_with s inp : stream_aesni E s inp = stream_with mid_aesni s inp.
+  Proof. reflexivity. Qed.
+
+  Lemma mid_aesni_spec total s inp :
+    ctr_inv total s -> total mod 16 = 0 -> total + N.of_nat (length inp) < two64 ->
+    mid_spec mid_aesni total s inp.
+  Proof.
+    intros Hinv Hm Hbound. pose proof Hinv as (Hlt & Hb & Hbuf & Hks & Hlen & Hn & H0 & Hpos).
+    unfold mid_spec, mid_aesni.
+    destruct (16 <=? N.of_nat (length inp)) eqn:Hge.
+    - apply N.leb_le in Hge. unfold wholeblocks_aesni. rewrite Hb.
+      destruct (N.to_nat (N.of_nat (length inp) / 16)) as [|n] eqn:Hnb; [lia|].
+      rewrite (bulk_spec (pblk s)) by (try assumption; lia).
+      replace (16 * (total / 16)) with total by lia.
+      exists (16 * S n)%nat. eexists. split; [|split; [lia | split; [lia | split; [|lia]]]].
+      + replace (16 * (N.of_nat (length inp) / 16)) with (N.of_nat (16 * S n)) by lia.
+        reflexivity.
+      + unfold ctr_inv, pblk_ok. cbn [bytectr buf pblk].
+        rewrite (N.mod_small _ two64) by lia.
+        split; [lia|]. split; [reflexivity|]. split; [exact Hbuf|].
+        split; [intros Hm'; exfalso; apply Hm'; lia|].
+        split; [rewrite app_length, firstn_length, be64_length; lia|].
+        split; [rewrite firstn_app_exact by (rewrite firstn_length; lia); exact Hn|].
+        split; [intros; lia|].
+        intros _. rewrite skipn_app_exact by (rewrite firstn_length; lia). f_equal. lia.
+    - apply N.leb_gt in Hge. exists 0%nat, s. cbn [firstn skipn xor_list N.of_nat].
+      rewrite N.sub_0_r, N.add_0_r. splits; try reflexivity; try assumption; lia.
+  Qed.
+
+  Theorem stream_aesni_spec total s inp :
+    ctr_inv total s -> total + N.of_nat (length inp) < two64 ->
+    exists s', stream_aesni E s inp = Ok (s', xor_list inp (ks_range total (length inp))) /\
+               ctr_inv (total + N.of_nat (length inp)) s'.
+  Proof.
+    intros Hinv Hbound. rewrite stream_aesni_is_stream_with.
+    apply stream_with_spec; [|exact Hinv | exact Hbound].
+    intros t s' inp' Hi Hm Hb Hl. apply mid_aesni_spec; assumption.
+  Qed.
+
+  (* M1, preservation: crypto_aesctr_stream in either build configuration *)
+  Theorem stream_cfg_spec hw total s inp :
+    ctr_inv total s -> total + N.of_nat (length inp) < two64 ->
+    exists s', stream_cfg E hw s inp = Ok (s', xor_list inp (ks_range total (length inp))) /\
+               ctr_inv (total + N.of_nat (length inp)) s'.
+  Proof.
+    intros Hinv Hbound. unfold stream_cfg.
+    destruct ((16 <=? N.of_nat (length inp)) && hw);
+      [apply stream_aesni_spec | apply stream_spec]; assumption.
+  Qed.
+
+  (* the invariant determines everything a later call can observe *)
+  Definition st_obs_eq (s1 s2 : st) : Prop :=
+    bytectr s1 = bytectr s2 /\ pblk s1 = pblk s2 /\
+    (bytectr s1 mod 16 <> 0 -> buf s1 = buf s2).
+
+  Lemma ctr_inv_obs total s1 s2 :
+    total <> 0 -> ctr_inv total s1 -> ctr_inv total s2 -> st_obs_eq s1 s2.
+  Proof.
+    intros Hnz (_ & Hb1 & _ & Hk1 & _ & Hn1 & _ & Hp1) (_ & Hb2 & _ & Hk2 & _ & Hn2 & _ & Hp2).
+    unfold st_obs_eq. rewrite Hb1, Hb2. split; [reflexivity|]. split.
+    - rewrite <- (firstn_skipn 8 (pblk s1)), <- (firstn_skipn 8 (pblk s2)).
+      rewrite Hn1, Hn2, (Hp1 Hnz), (Hp2 Hnz). reflexivity.
+    - intros Hm. rewrite (Hk1 Hm), (Hk2 Hm). reflexivity.
+  Qed.
+
+  (* C03-M2: from a state satisfying the invariant, the AES-NI path and the portable path write
+     the same bytes and leave states that no later call can tell apart (the AES-NI bulk path does
+     not refresh buf, which is dead at a block boundary) *)
+  Theorem stream_aesni_eq_stream total s inp :
+    ctr_inv total s -> total + N.of_nat (length inp) < two64 ->
+    exists s1 s2 out,
+      stream_aesni E s inp = Ok (s1, out) /\ stream E s inp = Ok (s2, out) /\
+      st_obs_eq s1 s2 /\
+      ctr_inv (total + N.of_nat (length inp)) s1 /\ ctr_inv (total + N.of_nat (length inp)) s2.
+  Proof.
+    intros Hinv Hbound.
+    destruct (stream_aesni_spec total s inp Hinv Hbound) as (s1 & H1 & Hi1).
+    destruct (stream_spec total s inp Hinv Hbound) as (s2 & H2 & Hi2).
+    exists s1, s2, (xor_list inp (ks_range total (length inp))).
+    split; [exact H1|]. split; [exact H2|]. split; [|split; assumption].
+    destruct inp as [|x inp].
+    - (* nothing to do: both return the state unchanged *)
+      cbn in H1, H2. unfold stream_aesni, stream, pre_whole in H1, H2.
+      destruct Hinv as (_ & Hb & _).
+      destruct (negb (bytectr s mod 16 =? 0)) eqn:Hm.
+      + cbn in H1, H2. inversion H1. inversion H2. subst.
+        unfold st_obs_eq. cbn [bytectr buf pblk]. splits; reflexivity.
+      + cbn in H1, H2. inversion H1. inversion H2. subst. unfold st_obs_eq. splits; reflexivity.
+    - apply (ctr_inv_obs (total + N.of_nat (length (x :: inp)))); try assumption.
+      cbn [length]. lia.
+  Qed.
+
+  (* ---------------------------------------------------------------- sequences of calls (M2) *)
+  Lemma stream_all_spec hw : forall chunks total s,
+    ctr_inv total s -> total + N.of_nat (length (concat chunks)) < two64 ->
+    exists s' outs,
+      stream_all E hw s chunks = Ok (s', outs) /\
+      concat outs = xor_list (concat chunks) (ks_range total (length (concat chunks))) /\
+      map (@length N) outs = map (@length N) chunks /\
+      ctr_inv (total + N.of_nat (length (concat chunks))) s'.
+  Proof.
+    induction chunks as [|c chunks IH]; intros total s Hinv Hbound.
+    - exists s, []. cbn. rewrite N.add_0_r. splits; try reflexivity. exact Hinv.
+    - cbn [concat] in *. rewrite app_length in *.
+      destruct (stream_cfg_spec hw total s c Hinv) as (s1 & Hs1 & Hinv1); [lia|].
+      destruct (IH (total + N.of_nat (length c)) s1 Hinv1) as (s2 & outs & Hs2 & Hcat & Hlens & Hinv2); [lia|].
+      cbn [stream_all]. rewrite Hs1. cbn [bind]. rewrite Hs2. cbn [bind].
+      eexists. eexists. split; [reflexivity|].
+      split; [|split].
+      + cbn [concat]. rewrite Hcat, ks_range_app.
+        rewrite xor_list_app by (rewrite ks_range_length; reflexivity). reflexivity.
+      + cbn [map]. rewrite Hlens. f_equal. apply xor_list_length. rewrite ks_range_length. lia.
+      + replace (total + N.of_nat (length c + length (concat chunks)))
+          with (total + N.of_nat (length c) + N.of_nat (length (concat chunks))) by lia.
+        exact Hinv2.
+  Qed.
+  End Nonce.
+
+  (* M2: for every nonce, every prior contents of the stream object and every sequence of calls,
+     the bytes written are ctr_spec of the concatenated input (and each call writes as many bytes
+     as it was given), in either build configuration *)
+  Theorem ctr_stream_correct : forall hw nonce any chunks,
+    st_wf any -> N.of_nat (length (concat chunks)) < two64 ->
+    exists s' outs,
+      stream_all E hw (init2 15 255 nonce any) chunks = Ok (s', outs) /\
+      concat outs = ctr_spec E nonce (concat chunks) /\
+      map (@length N) outs = map (@length N) chunks.
+  Proof.
+    intros hw nonce any chunks Hwf Hbound.
+    destruct (stream_all_spec nonce hw chunks 0 (init2 15 255 nonce any) (init2_inv nonce any Hwf))
+      as (s' & outs & Hs & Hcat & Hlens & _); [lia|].
+    exists s', outs. split; [exact Hs|]. split; [|exact Hlens].
+    rewrite Hcat. symmetry. apply ctr_spec_as_range.
+  Qed.
+
+  (* how the data is cut into calls does not matter *)
+  Corollary ctr_partition_independent : forall hw1 hw2 nonce any1 any2 chunks1 chunks2,
+    st_wf any1 -> st_wf any2 -> concat chunks1 = concat chunks2 ->
+    N.of_nat (length (concat chunks1)) < two64 ->
+    exists s1 outs1 s2 outs2,
+      stream_all E hw1 (init2 15 255 nonce any1) chunks1 = Ok (s1, outs1) /\
+      stream_all E hw2 (init2 15 255 nonce any2) chunks2 = Ok (s2, outs2) /\
+      concat outs1 = concat outs2.
+  Proof.
+    intros hw1 hw2 nonce any1 any2 chunks1 chunks2 Hw1 Hw2 Hcat Hbound.
+    destruct (ctr_stream_correct hw1 nonce any1 chunks1 Hw1 Hbound) as (s1 & o1 & H1 & Hc1 & _).
+    rewrite Hcat in Hbound.
+    destruct (ctr_stream_correct hw2 nonce any2 chunks2 Hw2 Hbound) as (s2 & o2 & H2 & Hc2 & _).
+    exists s1, o1, s2, o2. split; [exact H1|]. split; [exact H2|]. rewrite Hc1, Hc2, Hcat. reflexivity.
+  Qed.
+
+  (* encrypting twice (fresh init with the same nonce, any partitions) restores the input *)
+  Lemma ctr_spec_involutive nonce data : ctr_spec E nonce (ctr_spec E nonce data) = data.
+  Proof.
+    rewrite (ctr_spec_as_range nonce (ctr_spec E nonce data)), ctr_spec_length.
+    rewrite ctr_spec_as_range. apply xor_list_involutive. rewrite ks_range_length. reflexivity.
+  Qed.
+
+  Corollary ctr_involutive : forall hw1 hw2 nonce any1 any2 chunks1 chunks2 s1 outs1,
+    st_wf any1 -> st_wf any2 -> N.of_nat (length (concat chunks1)) < two64 ->
+    stream_all E hw1 (init2 15 255 nonce any1) chunks1 = Ok (s1, outs1) ->
+    concat chunks2 = concat outs1 ->
+    exists s2 outs2,
+      stream_all E hw2 (init2 15 255 nonce any2) chunks2 = Ok (s2, outs2) /\
+      concat outs2 = concat chunks1.
+  Proof.
+    intros hw1 hw2 nonce any1 any2 chunks1 chunks2 s1 outs1 Hw1 Hw2 Hbound Hrun Hcat.
+    destruct (ctr_stream_correct hw1 nonce any1 chunks1 Hw1 Hbound) as (s1' & o1 & H1 & Hc1 & _).
+    rewrite Hrun in H1. inversion H1; subst s1' o1.
+    assert (Hb2 : N.of_nat (length (concat chunks2)) < two64).
+    { rewrite Hcat, Hc1, ctr_spec_length. exact Hbound. }
+    destruct (ctr_stream_correct hw2 nonce any2 chunks2 Hw2 Hb2) as (s2 & o2 & H2 & Hc2 & _).
+    exists s2, o2. split; [exact H2|]. rewrite Hc2, Hcat, Hc1. apply ctr_spec_involutive.
+  Qed.
+End Proofs.
+
+(* re-initialising a used stream object restarts the keystream: whatever key (block function E1),
+   nonce and history the object has been through, init2 with a nonce - under the same key or under
+   a new one (E2) - makes the following calls produce ctr_spec from position 0 again *)
+Theorem ctr_reinit_restarts :
+  forall (E1 E2 : list N -> list N),
+    (forall b, length (E1 b) = 16%nat) -> (forall b, length (E2 b) = 16%nat) ->
+    forall hw1 hw2 nonce1 nonce2 any history s1 outs1 chunks,
+      st_wf any -> N.of_nat (length (concat history)) < two64 ->
+      stream_all E1 hw1 (init2 15 255 nonce1 any) history = Ok (s1, outs1) ->
+      N.of_nat (length (concat chunks)) < two64 ->
+      exists s2 outs2,
+        stream_all E2 hw2 (init2 15 255 nonce2 s1) chunks = Ok (s2, outs2) /\
+        concat outs2 = ctr_spec E2 nonce2 (concat chunks).
+Proof.
+  intros E1 E2 HE1 HE2 hw1 hw2 nonce1 nonce2 any history s1 outs1 chunks Hwf Hb1 Hrun Hb2.
+  destruct (stream_all_spec E1 HE1 nonce1 hw1 history 0 (init2 15 255 nonce1 any)
+              (init2_inv E1 nonce1 any Hwf)) as (s1' & o1 & H1 & _ & _ & Hinv1); [lia|].
+  rewrite Hrun in H1. inversion H1; subst s1' o1.
+  apply ctr_inv_wf in Hinv1.
+  destruct (ctr_stream_correct E2 HE2 hw2 nonce2 s1 chunks Hinv1 Hb2) as (s2 & o2 & H2 & Hc2 & _).
+  exists s2, o2. split; assumption.
+Qed.
